@@ -537,13 +537,17 @@ _rb_chunk_reclaim(struct qb_ringbuffer_s * rb)
 	uint32_t old_read_pt;
 	uint32_t new_read_pt;
 	uint32_t old_chunk_size;
-	uint32_t chunk_magic;
 	int rc = 0;
 
 	old_read_pt = rb->shared_hdr->read_pt;
-	chunk_magic = QB_RB_CHUNK_MAGIC_GET(rb, old_read_pt);
+	/*
+	 * Compare the pointers before looking at the marker: once write_pt
+	 * is seen to differ from read_pt, the writer has already stamped the
+	 * chunk at read_pt (ALLOC, later MAGIC), so the word read next is that
+	 * chunk's marker and not payload left over from an earlier lap.
+	 */
 	if (old_read_pt == rb->shared_hdr->write_pt ||
-	    chunk_magic != QB_RB_CHUNK_MAGIC) {
+	    (uint32_t)QB_RB_CHUNK_MAGIC_GET(rb, old_read_pt) != QB_RB_CHUNK_MAGIC) {
 		errno = EINVAL;
 		return -errno;
 	}
@@ -598,7 +602,6 @@ qb_rb_chunk_peek(struct qb_ringbuffer_s * rb, void **data_out, int32_t timeout)
 {
 	uint32_t read_pt;
 	uint32_t chunk_size;
-	uint32_t chunk_magic;
 	int32_t res = 0;
 
 	if (rb == NULL) {
@@ -617,9 +620,9 @@ qb_rb_chunk_peek(struct qb_ringbuffer_s * rb, void **data_out, int32_t timeout)
 		return res;
 	}
 	read_pt = rb->shared_hdr->read_pt;
-	chunk_magic = QB_RB_CHUNK_MAGIC_GET(rb, read_pt);
+	/* pointers first, then the marker: see _rb_chunk_reclaim() */
 	if (read_pt == rb->shared_hdr->write_pt ||
-	    chunk_magic != QB_RB_CHUNK_MAGIC) {
+	    (uint32_t)QB_RB_CHUNK_MAGIC_GET(rb, read_pt) != QB_RB_CHUNK_MAGIC) {
 		if (rb->notifier.post_fn) {
 			(void)rb->notifier.post_fn(rb->notifier.instance, res);
 		}
@@ -640,7 +643,6 @@ qb_rb_chunk_read(struct qb_ringbuffer_s * rb, void *data_out, size_t len,
 {
 	uint32_t read_pt;
 	uint32_t chunk_size;
-	uint32_t chunk_magic;
 	int32_t res = 0;
 
 	if (rb == NULL) {
@@ -658,10 +660,10 @@ qb_rb_chunk_read(struct qb_ringbuffer_s * rb, void *data_out, size_t len,
 	}
 
 	read_pt = rb->shared_hdr->read_pt;
-	chunk_magic = QB_RB_CHUNK_MAGIC_GET(rb, read_pt);
 
+	/* pointers first, then the marker: see _rb_chunk_reclaim() */
 	if (read_pt == rb->shared_hdr->write_pt ||
-	    chunk_magic != QB_RB_CHUNK_MAGIC) {
+	    (uint32_t)QB_RB_CHUNK_MAGIC_GET(rb, read_pt) != QB_RB_CHUNK_MAGIC) {
 		if (rb->notifier.timedwait_fn == NULL) {
 			return -ETIMEDOUT;
 		} else {
